@@ -33,7 +33,8 @@ C18Cases == {[kind |-> "c16", rule |-> sh, pl |-> "plain", sur |-> "plain"] : sh
 C20Cases == {[kind |-> "c20", rule |-> <<k, c, ex>>, pl |-> "flat", sur |-> "plain"] : k \in MockKinds, c \in MockCards, ex \in {"none", "mixed"}}
             \cup {[kind |-> "c20", rule |-> <<k, "one", ex>>, pl |-> "flat", sur |-> "plain"] : k \in {"string", "int32", "double", "bool", "enum"}, ex \in {"parsable", "unparsable"}}
             \cup {[kind |-> "c20", rule |-> <<k, c, ex>>, pl |-> "flat", sur |-> "plain"] : k \in {"string", "int32", "uint32", "uint64", "fixed32", "sint32", "float"}, c \in {"one", "opt", "rep"}, ex \in {"awkward", "range"}}
-            \cup {[kind |-> "c20", rule |-> <<k, "one", "parsable">>, pl |-> n, sur |-> "plain"] : k \in {"string", "int64", "int32", "enum", "msg", "ts"}, n \in MockNestings \ {"flat"}}
+            \cup {c \in {[kind |-> "c20", rule |-> <<k, "one", "parsable">>, pl |-> n, sur |-> "plain"] : k \in {"string", "int64", "int32", "enum", "msg", "ts"}, n \in MockNestings \ {"flat"}} :
+                     c.pl = "xpkg" => c.rule[1] \notin {"enum", "msg"}}
 
 Cases == CASE Family = "C12" -> C12Cases [] Family = "C13" -> C13Cases [] Family = "C18" -> C18Cases [] Family = "C20" -> C20Cases [] Family = "C14" -> C14Cases [] Family = "C15" -> C15Cases [] Family = "C16" -> C16Cases
 
